@@ -145,9 +145,12 @@ func culpritFunc(dump string) string {
 	return first
 }
 
-// guardRun executes the front end on mods in a child process. A child that is killed by the
-// timeout without having been seen inside repository code (it may not have been scheduled
-// yet on a loaded machine) proves nothing: the probe is repeated with five times the timeout.
+// guardRun executes the front end on mods in a child process. "Did not return" is judged by
+// the CPU time the child consumed, never by wall-clock time alone: a child that was killed
+// by the wall-clock timeout before it had consumed probeCPU of processor time (it may not
+// have been scheduled on a loaded machine) proves nothing; the probe is repeated with three
+// times the timeout (up to four times); if even the last one was starved the verdict is
+// "inconclusive" (not fatal; counted in guardStarved and reported as incomplete coverage).
 func guardRun(mode string, mods map[string]string, timeout time.Duration) guardVerdict {
 	// identical inputs (e.g. a token prefix that is also a byte prefix) are probed once per worker
 	h := fnv.New64a()
@@ -164,9 +167,18 @@ func guardRun(mode string, mods map[string]string, timeout time.Duration) guardV
 	if v, ok := guardCache[key]; ok {
 		return v
 	}
-	v, inRepo := guardRunOnce(mode, mods, timeout)
-	for try := 0; v.Fatal && !inRepo && try < 2; try++ {
-		v, inRepo = guardRunOnce(mode, mods, 5*timeout)
+	need := timeout * 3 / 4 // processor time that makes a "no-return" verdict meaningful
+	v, cpu, timedOut := guardRunOnce(mode, mods, timeout)
+	for try := 0; v.Fatal && timedOut && cpu < need && try < 4; try++ {
+		timeout *= 3
+		if beatHook != nil {
+			beatHook()
+		}
+		v, cpu, timedOut = guardRunOnce(mode, mods, timeout)
+	}
+	if v.Fatal && timedOut && cpu < need {
+		guardStarved++
+		v = guardVerdict{}
 	}
 	if len(guardCache) < 1<<16 {
 		guardCache[key] = v
@@ -174,12 +186,18 @@ func guardRun(mode string, mods map[string]string, timeout time.Duration) guardV
 	return v
 }
 
+// guardStarved counts probes that never got enough processor time for a verdict.
+var guardStarved int
+
+// beatHook, when set, tells the driver that the worker is alive (long probes).
+var beatHook func()
+
 var guardCache = map[uint64]guardVerdict{}
 
-func guardRunOnce(mode string, mods map[string]string, timeout time.Duration) (guardVerdict, bool) {
+func guardRunOnce(mode string, mods map[string]string, timeout time.Duration) (guardVerdict, time.Duration, bool) {
 	exe, err := os.Executable()
 	if err != nil {
-		return guardVerdict{}, false
+		return guardVerdict{}, 0, false
 	}
 	in, _ := json.Marshal(probeInput{Mode: mode, Mods: mods})
 	cmd := exec.Command("/bin/sh", "-c", fmt.Sprintf("ulimit -v %d; exec \"$0\"", probeMemKiB), exe)
@@ -192,7 +210,7 @@ func guardRunOnce(mode string, mods map[string]string, timeout time.Duration) (g
 	var stderr bytes.Buffer
 	cmd.Stderr = &stderr
 	if err := cmd.Start(); err != nil {
-		return guardVerdict{}, false
+		return guardVerdict{}, 0, false
 	}
 	done := make(chan error, 1)
 	go func() { done <- cmd.Wait() }()
@@ -211,7 +229,11 @@ func guardRunOnce(mode string, mods map[string]string, timeout time.Duration) (g
 		}
 	}
 	if werr == nil && !timedOut {
-		return guardVerdict{}, false
+		return guardVerdict{}, 0, false
+	}
+	var cpu time.Duration
+	if cmd.ProcessState != nil {
+		cpu = cmd.ProcessState.UserTime() + cmd.ProcessState.SystemTime()
 	}
 	dump := stderr.String()
 	reason := "died"
@@ -234,7 +256,7 @@ func guardRunOnce(mode string, mods map[string]string, timeout time.Duration) (g
 		Class: "FATAL:" + reason + ":" + fn,
 		Detail: fmt.Sprintf("NOT run in-process: the input was first run in a child process (address space %d KiB, max stack %d MiB, timeout %s) because it matches the pattern of a known fatal defect; the child did not return: %s at %s\n%s",
 			probeMemKiB, maxStack>>20, timeout, reason, site, head),
-	}, fn != ""
+	}, cpu, timedOut
 }
 
 // feSuspiciousText over-approximates the inputs of the importIdent loop: the lexer reports an
